@@ -103,5 +103,27 @@ def basis_covariance_pt(inp):
 
 
 
+def superoperator_helpers(inp):
+    """oqupy.operators: vec(A rho B) = left_right_super(A, B) vec(rho) (row-major), left/right_super, commutator, acommutator"""
+    import numpy as np
+    import oqupy.operators as op
+    rng = np.random.default_rng(3)
+    bad = []
+    for d in (2, 3):
+        A = rng.normal(size=(d, d)) + 1j * rng.normal(size=(d, d))
+        B = rng.normal(size=(d, d)) + 1j * rng.normal(size=(d, d))
+        rho = rng.normal(size=(d, d)) + 1j * rng.normal(size=(d, d))
+        v = rho.reshape(-1)
+        want = {'left_super': A @ rho, 'right_super': rho @ A, 'left_right_super': A @ rho @ B, 'commutator': A @ rho - rho @ A,
+                'acommutator': A @ rho + rho @ A}
+        got = {'left_super': op.left_super(A) @ v, 'right_super': op.right_super(A) @ v, 'left_right_super': op.left_right_super(A, B) @ v,
+               'commutator': op.commutator(A) @ v, 'acommutator': op.acommutator(A) @ v}
+        for k in want:
+            dev = float(np.abs(got[k].reshape(d, d) - want[k]).max())
+            if dev > 1e-12:
+                bad.append({'helper': k, 'dimension': d, 'deviation': dev})
+    return {'violates': bool(bad), 'detail': bad}
+
+
 # thorough tier (bounded native sweeps): (function, inputs, obligation of the open finding it reproduces or None)
-THOROUGH = [('bath_eigensystem', {}, None), ('basis_covariance', {}, None), ('basis_covariance_pt', {}, None)]
+THOROUGH = [('superoperator_helpers', {}, None), ('bath_eigensystem', {}, None), ('basis_covariance', {}, None), ('basis_covariance_pt', {}, None)]
